@@ -14,7 +14,7 @@
     * `getDirM`  — `getDirectory`: `readMetadata` cut to `size`, then `parseDirectory`;
     * `readLookup`, `readFragTable`, `readIdTable`  — `readFragmentTable` / `readUidsGids`: an index
       of 8-byte pointers, one metadata block behind each, 16-byte fragment entries / 4-byte ids
-      (the id table's block count is computed in uint16 as the code does);
+      (the id table's block count as the code computes it);
     * `fileFromImage`  — what `File.Read` / `readBlock` / `readFragment` fetch for a file inode:
       block `i` at `blocksStart + Σ sizes[<i]`, the tail at `fragments[index].start`;
     * `imgWalk`, `openImage`  — `Read` (superblock, fragment table, id table, root inode) and the
@@ -163,9 +163,9 @@ def parseIds : Nat → Bytes → List Nat
   | 0, _ => []
   | f+1, b => if b.length < 4 then [] else leDec (b.take 4) :: parseIds f (b.drop 4)
 
-/-- `readUidsGids`: the number of metadata blocks is computed in uint16:
-    `idBytes := idCount * 4; idBlocks := (idBytes - 1) / 8192 + 1` -/
-def idBlocks (count : Nat) : Nat := ((count * 4) % 65536 + 65535) % 65536 / 8192 + 1
+/-- `readUidsGids`: `idBytes := int(idCount) * 4; idBlocks := (idBytes - 1) / 8192 + 1`, in int since
+    fix 0ff62c2 (it was computed in uint16 and wrapped from 16385 ids on) -/
+def idBlocks (count : Nat) : Nat := (count * 4 - 1) / 8192 + 1
 
 def readIdTable (c : Codec) (img : Dev) (idStart count : Nat) : List Nat :=
   if count = 0 then [] else
